@@ -1,13 +1,1191 @@
-//! C04 — (not built yet)
-#![allow(unused_imports, unused_variables, dead_code)]
+//! C04 — binary deserialization agrees across the tape, on-demand and streaming paths.
+//!
+//! ops (all replayable; the trailing `<hex>` is what the real code runs on, the token lists are what
+//! the Lean model of de.rs runs on):
+//!   bde_tape   <cfg> <ty> <tape> <hex>                 tape path; <tape> = show::bin_tape of the real BinaryTape
+//!   bde_slice  <cfg> <ty> <raw> <hex>                  on-demand path; <raw> = raw lexeme list (real Lexer primitives)
+//!   bde_stream <cfg> <ty> <raw> <hex> <cap> <sched>    streaming path with buffer capacity and read schedule
+//!   bde_spec   <cfg> <ty> <bdoc>                       reference value of a binary document (Lean: `valueOfBin`,
+//!                                                      Rust: `value_of_bin`); exec renders the document, runs all
+//!                                                      three real paths and compares them with the reference (L3)
+//!   bde_toks   <bdoc>   /  bde_tapeof <bdoc>           raw lexemes / tape of a binary document (Lean `tokensOf`/`tapeOf`
+//!                                                      vs. the real Lexer / BinaryTape on the rendering)
+//!   x-c04-real <cfg> <hex>                             fixed real derived structs vs. TySeed with the equivalent Ty
+//!
+//! <cfg> = <E|S|I>/<H|L>/<id>:<hexname>,...   strategy / resolver kind (HashMap, from_text_Lines) / entries ("-" none)
+//! <ty>  = tyseed syntax, or at the root `tst(name#id:T;...)` = a `#[jomini(token = id)]` struct
+//! <raw> = Open Close Equal U32:n U64:n I32:n I64:n Bool:0|1 Q:<hex> U:<hex> F32:<hex> F64:<hex> Id:n
+//!         (the rgb marker is the plain lexeme `Id:579`; the on-demand path and both skip loops see it that way),
+//!         a truncated input ends with `Trunc` (id read, payload short) or `Stray` (one dangling byte)
+//! <bdoc> = field;field;...   field = `~`* key `=` node   node = leaf | O(field;...) | A(node;...) | Rgb:r.g.b[.a]
+#![allow(dead_code)]
 use crate::common::*;
+use crate::docgen::{self, BinCfg, Doc, DocCfg, Field, Leaf, Node};
+use crate::sched;
+use crate::show;
+use crate::tyseed::{err_class, parse_ty, show_ty, Ty, TySeed};
+use jomini::binary::{
+    BasicTokenResolver, BinaryFlavor, FailedResolveStrategy, LexemeId, Lexer, TokenReader, TokenResolver,
+};
+use jomini::{BinaryDeserializer, BinaryTape, Encoding, Windows1252Encoding};
+use serde::de::{self, DeserializeSeed, Deserializer, MapAccess, Visitor};
+use std::collections::HashMap;
+use std::fmt;
 
-pub fn gen(g: &mut Gen) {}
+// ---------------------------------------------------------------------------------------
+// flavor: EU4-style fixed point (f32 = i32 / 1000, f64 = Q49.15), Windows-1252 strings
+
+#[derive(Debug, Default, Clone, Copy)]
+pub struct VFlavor;
+impl Encoding for VFlavor {
+    fn decode<'a>(&self, data: &'a [u8]) -> std::borrow::Cow<'a, str> {
+        Windows1252Encoding::decode(data)
+    }
+}
+impl BinaryFlavor for VFlavor {
+    fn visit_f32(&self, data: [u8; 4]) -> f32 {
+        i32::from_le_bytes(data) as f32 / 1000.0
+    }
+    fn visit_f64(&self, data: [u8; 8]) -> f64 {
+        i64::from_le_bytes(data) as f64 / 32768.0
+    }
+}
+
+// ---------------------------------------------------------------------------------------
+// configuration
+
+#[derive(Clone, Debug, PartialEq)]
+pub struct Cfg {
+    pub strat: FailedResolveStrategy,
+    pub lines: bool,
+    pub entries: Vec<(u16, String)>,
+}
+
+pub fn show_cfg(c: &Cfg) -> String {
+    let s = match c.strat { FailedResolveStrategy::Error => "E", FailedResolveStrategy::Stringify => "S", FailedResolveStrategy::Ignore => "I" };
+    let e = if c.entries.is_empty() { "-".to_string() } else { c.entries.iter().map(|(i, n)| format!("{}:{}", i, hex(n.as_bytes()))).collect::<Vec<_>>().join(",") };
+    format!("{}/{}/{}", s, if c.lines { "L" } else { "H" }, e)
+}
+
+pub fn parse_cfg(s: &str) -> Option<Cfg> {
+    let mut it = s.splitn(3, '/');
+    let strat = match it.next()? { "E" => FailedResolveStrategy::Error, "S" => FailedResolveStrategy::Stringify, "I" => FailedResolveStrategy::Ignore, _ => return None };
+    let lines = match it.next()? { "L" => true, "H" => false, _ => return None };
+    let e = it.next()?;
+    let mut entries = vec![];
+    if e != "-" {
+        for p in e.split(',') {
+            let (i, n) = p.split_once(':')?;
+            entries.push((i.parse().ok()?, String::from_utf8(unhex(n)?).ok()?));
+        }
+    }
+    Some(Cfg { strat, lines, entries })
+}
+
+pub fn make_resolver(c: &Cfg) -> Box<dyn TokenResolver> {
+    if c.lines {
+        let mut txt = String::new();
+        for (i, n) in &c.entries { txt.push_str(&format!("0x{:x} {}\n", i, n)); }
+        Box::new(BasicTokenResolver::from_text_lines(txt.as_bytes()).expect("token text lines"))
+    } else {
+        let mut m: HashMap<u16, String> = HashMap::new();
+        for (i, n) in &c.entries { m.insert(*i, n.clone()); }
+        Box::new(m)
+    }
+}
+
+fn lookup<'a>(c: &'a Cfg, id: u16) -> Option<&'a str> {
+    // last entry wins (HashMap::insert semantics)
+    c.entries.iter().rev().find(|(i, _)| *i == id).map(|(_, n)| n.as_str())
+}
+
+// ---------------------------------------------------------------------------------------
+// root target type: tyseed Ty, or a token-attribute struct (mirrors jomini_derive: keys requested with
+// deserialize_u16, field visitor has visit_str (by name) and visit_u16 (by token), anything else unknown)
+
+#[derive(Clone, Debug, PartialEq)]
+pub enum RootTy {
+    Plain(Ty),
+    Tok(Vec<(String, u16, Ty)>),
+}
+
+pub fn show_root(t: &RootTy) -> String {
+    match t {
+        RootTy::Plain(t) => show_ty(t),
+        RootTy::Tok(fs) => format!("tst({})", fs.iter().map(|(n, i, t)| format!("{}#{}:{}", n, i, show_ty(t))).collect::<Vec<_>>().join(";")),
+    }
+}
+
+pub fn parse_root(s: &str) -> Option<RootTy> {
+    if let Some(r) = s.strip_prefix("tst(") {
+        // fields are `name#id:ty` separated by ';' at nesting depth 0
+        let body = r.strip_suffix(')')?;
+        let mut fs = vec![];
+        let mut depth = 0usize;
+        let mut start = 0usize;
+        let b = body.as_bytes();
+        let mut parts = vec![];
+        for (i, c) in b.iter().enumerate() {
+            match c { b'(' => depth += 1, b')' => depth = depth.checked_sub(1)?, b';' if depth == 0 => { parts.push(&body[start..i]); start = i + 1; } _ => {} }
+        }
+        if start < body.len() { parts.push(&body[start..]); }
+        for p in parts {
+            let (name, rest) = p.split_once('#')?;
+            let (id, t) = rest.split_once(':')?;
+            fs.push((name.to_string(), id.parse().ok()?, parse_ty(t)?));
+        }
+        Some(RootTy::Tok(fs))
+    } else {
+        parse_ty(s).map(RootTy::Plain)
+    }
+}
+
+struct TokFieldId<'a>(&'a [(String, u16, Ty)]);
+impl<'de, 'a> DeserializeSeed<'de> for TokFieldId<'a> {
+    type Value = Option<usize>;
+    fn deserialize<D: Deserializer<'de>>(self, d: D) -> Result<Option<usize>, D::Error> {
+        struct V<'a>(&'a [(String, u16, Ty)]);
+        impl<'de, 'a> Visitor<'de> for V<'a> {
+            type Value = Option<usize>;
+            fn expecting(&self, f: &mut fmt::Formatter) -> fmt::Result { f.write_str("field identifier") }
+            fn visit_str<E: de::Error>(self, v: &str) -> Result<Option<usize>, E> { Ok(self.0.iter().position(|(n, _, _)| n == v)) }
+            fn visit_u16<E: de::Error>(self, v: u16) -> Result<Option<usize>, E> { Ok(self.0.iter().position(|(_, i, _)| *i == v)) }
+        }
+        d.deserialize_u16(V(self.0))
+    }
+}
+
+struct TokStructVisitor<'a>(&'a [(String, u16, Ty)]);
+impl<'de, 'a> Visitor<'de> for TokStructVisitor<'a> {
+    type Value = String;
+    fn expecting(&self, f: &mut fmt::Formatter) -> fmt::Result { f.write_str("struct T") }
+    fn visit_map<A: MapAccess<'de>>(self, mut map: A) -> Result<String, A::Error> {
+        let mut slots: Vec<Option<String>> = vec![None; self.0.len()];
+        while let Some(k) = map.next_key_seed(TokFieldId(self.0))? {
+            match k {
+                Some(i) => {
+                    if slots[i].is_some() {
+                        return Err(de::Error::duplicate_field(Box::leak(self.0[i].0.clone().into_boxed_str())));
+                    }
+                    slots[i] = Some(map.next_value_seed(TySeed(&self.0[i].2))?);
+                }
+                None => { map.next_value::<de::IgnoredAny>()?; }
+            }
+        }
+        let mut items = vec![];
+        for (i, (name, _, ty)) in self.0.iter().enumerate() {
+            let v = match slots[i].take() {
+                Some(v) => v,
+                None => match ty { Ty::Opt(_) => "none".to_string(), _ => return Err(de::Error::missing_field(Box::leak(name.clone().into_boxed_str()))) },
+            };
+            items.push(format!("{}={}", name, v));
+        }
+        Ok(format!("{{{}}}", items.join(",")))
+    }
+}
+
+pub struct RootSeed<'a>(pub &'a RootTy);
+impl<'de, 'a> DeserializeSeed<'de> for RootSeed<'a> {
+    type Value = String;
+    fn deserialize<D: Deserializer<'de>>(self, d: D) -> Result<String, D::Error> {
+        match self.0 {
+            RootTy::Plain(t) => TySeed(t).deserialize(d),
+            RootTy::Tok(fs) => d.deserialize_struct("T", &[], TokStructVisitor(fs)),
+        }
+    }
+}
+
+// ---------------------------------------------------------------------------------------
+// running the three real paths
+
+fn builder(c: &Cfg) -> jomini::binary::de::BinaryDeserializerBuilder<VFlavor> {
+    let mut b = BinaryDeserializer::builder_flavor(VFlavor);
+    b.on_failed_resolve(c.strat);
+    b
+}
+
+fn finish<E: fmt::Display>(r: Result<String, E>) -> String {
+    match r { Ok(v) => v, Err(e) => err_class(&e.to_string()) }
+}
+
+pub fn run_tape(c: &Cfg, ty: &RootTy, data: &[u8]) -> String {
+    let tape = match BinaryTape::from_slice(data) { Ok(t) => t, Err(_) => return "err:parse".to_string() };
+    let res = make_resolver(c);
+    let de = builder(c).from_tape(&tape, &res);
+    finish(RootSeed(ty).deserialize(&de))
+}
+
+pub fn run_slice(c: &Cfg, ty: &RootTy, data: &[u8]) -> String {
+    let res = make_resolver(c);
+    let mut de = builder(c).from_slice(data, &res);
+    finish(RootSeed(ty).deserialize(&mut de))
+}
+
+pub fn run_stream(c: &Cfg, ty: &RootTy, data: &[u8], cap: usize, steps: Vec<sched::Step>) -> String {
+    let res = make_resolver(c);
+    let rdr = sched::SchedReader::new(data, steps);
+    let mut b = builder(c);
+    b.reader_config(TokenReader::builder().buffer_len(cap));
+    let mut de = b.from_reader(rdr, &res);
+    finish(RootSeed(ty).deserialize(&mut de))
+}
+
+// ---------------------------------------------------------------------------------------
+// raw lexemes through the real Lexer primitives (what the on-demand path and the skip loops see)
+
+pub fn raw_tokens(data: &[u8]) -> (Vec<String>, usize) {
+    let mut lx = Lexer::new(data);
+    let mut out = vec![];
+    let mut biggest = 2usize;
+    loop {
+        if lx.remainder().is_empty() { break; }
+        let before = lx.position();
+        let id = match lx.read_id() { Ok(i) => i, Err(_) => { out.push("Stray".to_string()); break; } };
+        macro_rules! pay { ($e:expr, $f:expr) => { match $e { Ok(v) => $f(v), Err(_) => { out.push("Trunc".to_string()); break; } } } }
+        let s = match id {
+            LexemeId::OPEN => "Open".to_string(),
+            LexemeId::CLOSE => "Close".to_string(),
+            LexemeId::EQUAL => "Equal".to_string(),
+            LexemeId::U32 => pay!(lx.read_u32(), |v| format!("U32:{}", v)),
+            LexemeId::U64 => pay!(lx.read_u64(), |v| format!("U64:{}", v)),
+            LexemeId::I32 => pay!(lx.read_i32(), |v| format!("I32:{}", v)),
+            LexemeId::I64 => pay!(lx.read_i64(), |v| format!("I64:{}", v)),
+            LexemeId::BOOL => pay!(lx.read_bool(), |v| format!("Bool:{}", v as u8)),
+            LexemeId::QUOTED => pay!(lx.read_string(), |v: jomini::Scalar| format!("Q:{}", hex(v.as_bytes()))),
+            LexemeId::UNQUOTED => pay!(lx.read_string(), |v: jomini::Scalar| format!("U:{}", hex(v.as_bytes()))),
+            LexemeId::F32 => pay!(lx.read_f32(), |v: [u8; 4]| format!("F32:{}", hex(&v))),
+            LexemeId::F64 => pay!(lx.read_f64(), |v: [u8; 8]| format!("F64:{}", hex(&v))),
+            LexemeId(n) => format!("Id:{}", n),
+        };
+        biggest = biggest.max(lx.position() - before);
+        out.push(s);
+    }
+    (out, biggest)
+}
+
+pub fn join(v: &[String]) -> String { if v.is_empty() { "-".to_string() } else { v.join(",") } }
+
+/// size of the largest token the streaming reader must hold at once (an rgb block is one token there)
+pub fn max_token_len(raw: &[String], biggest_lexeme: usize) -> usize {
+    let mut m = biggest_lexeme;
+    if raw.iter().any(|t| t == "Id:579") { m = m.max(2 + 2 + 4 * 6 + 2); }
+    m
+}
+
+// ---------------------------------------------------------------------------------------
+// binary documents (the encoding choices of docgen::render_binary made explicit)
+
+#[derive(Clone, Debug, PartialEq)]
+pub enum BLeaf { I32(i32), I64(i64), U32(u32), U64(u64), Bool(bool), F32([u8; 4]), F64([u8; 8]), Quoted(Vec<u8>), Unquoted(Vec<u8>), Id(u16) }
+#[derive(Clone, Debug, PartialEq)]
+pub enum BNode { Leaf(BLeaf), Obj(Vec<BField>), Arr(Vec<BNode>), Rgb(u32, u32, u32, Option<u32>) }
+#[derive(Clone, Debug, PartialEq)]
+pub struct BField { pub ghosts: usize, pub key: BLeaf, pub val: BNode }
+#[derive(Clone, Debug, PartialEq)]
+pub struct BDoc { pub fields: Vec<BField> }
+
+fn to_bleaf(rng: &mut Rng, cfg: &BinCfg, l: &Leaf, is_key: bool) -> BLeaf {
+    // same order of random draws as docgen::bin_leaf
+    match l {
+        Leaf::Unq(b) | Leaf::Quo(b) => {
+            if is_key {
+                if let Some(id) = docgen::key_id(b) {
+                    if rng.below(100) < cfg.key_id_pct { return BLeaf::Id(id); }
+                }
+            }
+            let quoted = matches!(l, Leaf::Quo(_)) || rng.below(100) >= cfg.unquoted_pct;
+            if quoted { BLeaf::Quoted(b.clone()) } else { BLeaf::Unquoted(b.clone()) }
+        }
+        Leaf::Int(i) => match i32::try_from(*i) { Ok(v) => BLeaf::I32(v), Err(_) => BLeaf::I64(*i) },
+        Leaf::Uint(u) => match u32::try_from(*u) { Ok(v) => BLeaf::U32(v), Err(_) => BLeaf::U64(*u) },
+        Leaf::Bool(b) => BLeaf::Bool(*b),
+        Leaf::Fixed(t) => BLeaf::F32(t.to_le_bytes()),
+        Leaf::Date(y, m, d, h) => BLeaf::I32(docgen::date_to_binary(*y, *m, *d, *h)),
+    }
+}
+fn to_bnode(rng: &mut Rng, cfg: &BinCfg, n: &Node) -> BNode {
+    match n {
+        Node::Leaf(l) => BNode::Leaf(to_bleaf(rng, cfg, l, false)),
+        Node::Obj(fs) => BNode::Obj(fs.iter().map(|f| to_bfield(rng, cfg, f)).collect()),
+        Node::Arr(vs) => BNode::Arr(vs.iter().map(|v| to_bnode(rng, cfg, v)).collect()),
+        Node::Rgb(r, g, b, a) => BNode::Rgb(*r, *g, *b, *a),
+        Node::Header(_, body) => to_bnode(rng, cfg, body),
+        Node::Mixed(fs, rest) => { let mut v: Vec<BNode> = vec![]; let _ = (fs, rest); v.clear(); BNode::Arr(v) } // not in the shared subset
+    }
+}
+fn to_bfield(rng: &mut Rng, cfg: &BinCfg, f: &Field) -> BField {
+    let key = to_bleaf(rng, cfg, &f.key, true);
+    BField { ghosts: f.ghosts, key, val: to_bnode(rng, cfg, &f.val) }
+}
+pub fn to_bdoc(rng: &mut Rng, cfg: &BinCfg, d: &Doc) -> BDoc { BDoc { fields: d.fields.iter().map(|f| to_bfield(rng, cfg, f)).collect() } }
+
+fn w16(out: &mut Vec<u8>, v: u16) { out.extend_from_slice(&v.to_le_bytes()); }
+fn render_leaf(l: &BLeaf, out: &mut Vec<u8>) {
+    use docgen::*;
+    match l {
+        BLeaf::I32(v) => { w16(out, L_I32); out.extend_from_slice(&v.to_le_bytes()); }
+        BLeaf::I64(v) => { w16(out, L_I64); out.extend_from_slice(&v.to_le_bytes()); }
+        BLeaf::U32(v) => { w16(out, L_U32); out.extend_from_slice(&v.to_le_bytes()); }
+        BLeaf::U64(v) => { w16(out, L_U64); out.extend_from_slice(&v.to_le_bytes()); }
+        BLeaf::Bool(b) => { w16(out, L_BOOL); out.push(*b as u8); }
+        BLeaf::F32(b) => { w16(out, L_F32); out.extend_from_slice(b); }
+        BLeaf::F64(b) => { w16(out, L_F64); out.extend_from_slice(b); }
+        BLeaf::Quoted(b) => { w16(out, L_QUOTED); w16(out, b.len() as u16); out.extend_from_slice(b); }
+        BLeaf::Unquoted(b) => { w16(out, L_UNQUOTED); w16(out, b.len() as u16); out.extend_from_slice(b); }
+        BLeaf::Id(i) => w16(out, *i),
+    }
+}
+fn render_node(n: &BNode, out: &mut Vec<u8>) {
+    use docgen::*;
+    match n {
+        BNode::Leaf(l) => render_leaf(l, out),
+        BNode::Obj(fs) => { w16(out, L_OPEN); for f in fs { render_field(f, out); } w16(out, L_CLOSE); }
+        BNode::Arr(vs) => { w16(out, L_OPEN); for v in vs { render_node(v, out); } w16(out, L_CLOSE); }
+        BNode::Rgb(r, g, b, a) => {
+            w16(out, L_RGB); w16(out, L_OPEN);
+            for c in [Some(*r), Some(*g), Some(*b), *a].iter().flatten() { w16(out, L_U32); out.extend_from_slice(&c.to_le_bytes()); }
+            w16(out, L_CLOSE);
+        }
+    }
+}
+fn render_field(f: &BField, out: &mut Vec<u8>) {
+    use docgen::*;
+    for _ in 0..f.ghosts { w16(out, L_OPEN); w16(out, L_CLOSE); }
+    render_leaf(&f.key, out);
+    w16(out, L_EQUAL);
+    render_node(&f.val, out);
+}
+pub fn render_bdoc(d: &BDoc) -> Vec<u8> { let mut out = vec![]; for f in &d.fields { render_field(f, &mut out); } out }
+
+pub fn show_bleaf(l: &BLeaf) -> String {
+    match l {
+        BLeaf::I32(v) => format!("I32:{}", v), BLeaf::I64(v) => format!("I64:{}", v), BLeaf::U32(v) => format!("U32:{}", v), BLeaf::U64(v) => format!("U64:{}", v),
+        BLeaf::Bool(b) => format!("Bool:{}", *b as u8), BLeaf::F32(b) => format!("F32:{}", hex(b)), BLeaf::F64(b) => format!("F64:{}", hex(b)),
+        BLeaf::Quoted(b) => format!("Q:{}", hex(b)), BLeaf::Unquoted(b) => format!("U:{}", hex(b)), BLeaf::Id(i) => format!("Id:{}", i),
+    }
+}
+pub fn show_bnode(n: &BNode) -> String {
+    match n {
+        BNode::Leaf(l) => show_bleaf(l),
+        BNode::Obj(fs) => format!("O({})", fs.iter().map(show_bfield).collect::<Vec<_>>().join(";")),
+        BNode::Arr(vs) => format!("A({})", vs.iter().map(show_bnode).collect::<Vec<_>>().join(";")),
+        BNode::Rgb(r, g, b, a) => match a { Some(a) => format!("Rgb:{}.{}.{}.{}", r, g, b, a), None => format!("Rgb:{}.{}.{}", r, g, b) },
+    }
+}
+pub fn show_bfield(f: &BField) -> String { format!("{}{}={}", "~".repeat(f.ghosts), show_bleaf(&f.key), show_bnode(&f.val)) }
+pub fn show_bdoc(d: &BDoc) -> String { if d.fields.is_empty() { "-".to_string() } else { d.fields.iter().map(show_bfield).collect::<Vec<_>>().join(";") } }
+
+struct P<'a> { s: &'a [u8], i: usize }
+impl<'a> P<'a> {
+    fn peek(&self) -> Option<u8> { self.s.get(self.i).copied() }
+    fn eat(&mut self, c: u8) -> bool { if self.peek() == Some(c) { self.i += 1; true } else { false } }
+    fn word(&mut self) -> &'a str {
+        let st = self.i;
+        while let Some(c) = self.peek() { if matches!(c, b'(' | b')' | b';' | b'=' | b'~') { break; } self.i += 1; }
+        std::str::from_utf8(&self.s[st..self.i]).unwrap_or("")
+    }
+    fn leaf(w: &str) -> Option<BLeaf> {
+        let (k, v) = w.split_once(':')?;
+        Some(match k {
+            "I32" => BLeaf::I32(v.parse().ok()?), "I64" => BLeaf::I64(v.parse().ok()?), "U32" => BLeaf::U32(v.parse().ok()?), "U64" => BLeaf::U64(v.parse().ok()?),
+            "Bool" => BLeaf::Bool(v == "1"), "F32" => BLeaf::F32(unhex(v)?.try_into().ok()?), "F64" => BLeaf::F64(unhex(v)?.try_into().ok()?),
+            "Q" => BLeaf::Quoted(unhex(v)?), "U" => BLeaf::Unquoted(unhex(v)?), "Id" => BLeaf::Id(v.parse().ok()?), _ => return None,
+        })
+    }
+    fn node(&mut self) -> Option<BNode> {
+        let w = self.word();
+        if w == "O" && self.eat(b'(') {
+            let mut fs = vec![];
+            if self.eat(b')') { return Some(BNode::Obj(fs)); }
+            loop { fs.push(self.field()?); if self.eat(b')') { break; } if !self.eat(b';') { return None; } }
+            Some(BNode::Obj(fs))
+        } else if w == "A" && self.eat(b'(') {
+            let mut vs = vec![];
+            if self.eat(b')') { return Some(BNode::Arr(vs)); }
+            loop { vs.push(self.node()?); if self.eat(b')') { break; } if !self.eat(b';') { return None; } }
+            Some(BNode::Arr(vs))
+        } else if let Some(r) = w.strip_prefix("Rgb:") {
+            let p: Vec<u32> = r.split('.').map(|x| x.parse().ok()).collect::<Option<Vec<_>>>()?;
+            match p.len() { 3 => Some(BNode::Rgb(p[0], p[1], p[2], None)), 4 => Some(BNode::Rgb(p[0], p[1], p[2], Some(p[3]))), _ => None }
+        } else {
+            Self::leaf(w).map(BNode::Leaf)
+        }
+    }
+    fn field(&mut self) -> Option<BField> {
+        let mut ghosts = 0;
+        while self.eat(b'~') { ghosts += 1; }
+        let key = Self::leaf(self.word())?;
+        if !self.eat(b'=') { return None; }
+        Some(BField { ghosts, key, val: self.node()? })
+    }
+}
+pub fn parse_bdoc(s: &str) -> Option<BDoc> {
+    if s == "-" { return Some(BDoc { fields: vec![] }); }
+    let mut p = P { s: s.as_bytes(), i: 0 };
+    let mut fields = vec![];
+    loop { fields.push(p.field()?); if p.i == p.s.len() { break; } if !p.eat(b';') { return None; } }
+    Some(BDoc { fields })
+}
+
+// ---------------------------------------------------------------------------------------
+// the reference: what a binary document means for a target type (independent of de.rs; None = the type
+// does not fit the document's shape, no claim)
+
+#[derive(Clone, Debug, PartialEq)]
+enum Prim { Bool(bool), I32(i32), I64(i64), U32(u32), U64(u64), U16(u16), F32(f32), F64(f64), Str(String) }
+
+type R = Result<String, String>; // Ok(val) | Err(error class)
+
+fn render_prim(p: &Prim) -> String {
+    match p {
+        Prim::Bool(b) => format!("b{}", *b as u8), Prim::I32(v) => format!("i{}", v), Prim::I64(v) => format!("i{}", v),
+        Prim::U32(v) => format!("u{}", v), Prim::U64(v) => format!("u{}", v), Prim::U16(v) => format!("u{}", v),
+        Prim::F32(v) => format!("g{}", v.to_bits()), Prim::F64(v) => format!("f{}", v.to_bits()), Prim::Str(s) => format!("s{}", hex(s.as_bytes())),
+    }
+}
+
+fn as_int(p: &Prim) -> Option<i128> {
+    match p { Prim::I32(v) => Some(*v as i128), Prim::I64(v) => Some(*v as i128), Prim::U32(v) => Some(*v as i128), Prim::U64(v) => Some(*v as i128), Prim::U16(v) => Some(*v as i128), _ => None }
+}
+
+/// what serde's own impls for bool / integers / floats / String accept (stated from serde's documentation of
+/// the primitive impls: lossless integer conversions only, integers widen to floats, nothing else)
+fn accept(ty: &Ty, p: &Prim) -> R {
+    let ty_err = || Err("err:type".to_string());
+    match ty {
+        Ty::Bool => match p { Prim::Bool(b) => Ok(format!("b{}", *b as u8)), _ => ty_err() },
+        Ty::I64 => match as_int(p) { Some(v) if v >= i64::MIN as i128 && v <= i64::MAX as i128 => Ok(format!("i{}", v)), _ => ty_err() },
+        Ty::I32 => match as_int(p) { Some(v) if v >= i32::MIN as i128 && v <= i32::MAX as i128 => Ok(format!("i{}", v)), _ => ty_err() },
+        Ty::U64 => match as_int(p) { Some(v) if v >= 0 && v <= u64::MAX as i128 => Ok(format!("u{}", v)), _ => ty_err() },
+        Ty::U32 => match as_int(p) { Some(v) if v >= 0 && v <= u32::MAX as i128 => Ok(format!("u{}", v)), _ => ty_err() },
+        Ty::F64 => match p {
+            Prim::F64(v) => Ok(format!("f{}", v.to_bits())), Prim::F32(v) => Ok(format!("f{}", (*v as f64).to_bits())),
+            _ => match as_int(p) { Some(v) => Ok(format!("f{}", (v as f64).to_bits())), None => ty_err() },
+        },
+        Ty::F32 => match p {
+            Prim::F32(v) => Ok(format!("g{}", v.to_bits())), Prim::F64(v) => Ok(format!("g{}", (*v as f32).to_bits())),
+            _ => match as_int(p) { Some(v) => Ok(format!("g{}", (v as f32).to_bits())), None => ty_err() },
+        },
+        Ty::Str => match p { Prim::Str(s) => Ok(format!("s{}", hex(s.as_bytes()))), _ => ty_err() },
+        Ty::Any => Ok(render_prim(p)),
+        Ty::Ign => Ok("ign".to_string()),
+        Ty::Enum(vs) => match p { Prim::Str(s) => if vs.iter().any(|v| v == s) { Ok(format!("en({})", hex(s.as_bytes()))) } else { Err("err:other".to_string()) }, _ => ty_err() },
+        _ => ty_err(),
+    }
+}
+
+fn leaf_prim(c: &Cfg, l: &BLeaf) -> Result<Prim, String> {
+    Ok(match l {
+        BLeaf::I32(v) => Prim::I32(*v), BLeaf::I64(v) => Prim::I64(*v), BLeaf::U32(v) => Prim::U32(*v), BLeaf::U64(v) => Prim::U64(*v), BLeaf::Bool(b) => Prim::Bool(*b),
+        BLeaf::F32(b) => Prim::F32(i32::from_le_bytes(*b) as f32 / 1000.0),
+        BLeaf::F64(b) => Prim::F64(i64::from_le_bytes(*b) as f64 / 32768.0),
+        BLeaf::Quoted(b) | BLeaf::Unquoted(b) => Prim::Str(ref_decode(b)),
+        BLeaf::Id(i) => match lookup(c, *i) {
+            Some(n) => Prim::Str(n.to_string()),
+            None => match c.strat {
+                FailedResolveStrategy::Error => return Err("err:other".to_string()),
+                FailedResolveStrategy::Stringify => Prim::Str(format!("0x{:x}", i)),
+                FailedResolveStrategy::Ignore => Prim::Str("__internal_identifier_ignore".to_string()),
+            },
+        },
+    })
+}
+
+/// Windows-1252 text of a binary string: trailing ASCII blanks dropped, backslashes dropped, bytes ≥ 0x80 through
+/// the code page (reference table from the Unicode consortium's CP1252.TXT, undefined slots = C1 controls)
+fn ref_decode(b: &[u8]) -> String {
+    const HIGH: [u16; 32] = [0x20AC, 0x81, 0x201A, 0x0192, 0x201E, 0x2026, 0x2020, 0x2021, 0x02C6, 0x2030, 0x0160, 0x2039, 0x0152, 0x8D, 0x017D, 0x8F,
+        0x90, 0x2018, 0x2019, 0x201C, 0x201D, 0x2022, 0x2013, 0x2014, 0x02DC, 0x2122, 0x0161, 0x203A, 0x0153, 0x9D, 0x017E, 0x0178];
+    let mut end = b.len();
+    while end > 0 && matches!(b[end - 1], b' ' | b'\t' | b'\n' | b'\r' | 0x0c) { end -= 1; }
+    let mut s = String::new();
+    for &c in &b[..end] {
+        if c == b'\\' { continue; }
+        let cp = if (0x80..0xA0).contains(&c) { HIGH[(c - 0x80) as usize] as u32 } else { c as u32 };
+        s.push(char::from_u32(cp).unwrap());
+    }
+    s
+}
+
+fn is_leaf_ty(t: &Ty) -> bool { matches!(t, Ty::Bool | Ty::I64 | Ty::I32 | Ty::U64 | Ty::U32 | Ty::F64 | Ty::F32 | Ty::Str | Ty::Any | Ty::Enum(_)) }
+
+/// element of the colour pseudo-sequence `["rgb", [r, g, b(, a)]]`
+fn ref_color(t: &Ty, r: u32, g: u32, b: u32, a: Option<u32>) -> Option<R> {
+    let comps: Vec<u32> = [Some(r), Some(g), Some(b), a].iter().flatten().copied().collect();
+    let head = match t { Ty::Ign => Ok("ign".to_string()), t if is_leaf_ty(t) => accept(t, &Prim::Str("rgb".into())), _ => Err("err:type".to_string()) };
+    let head = match head { Ok(h) => h, Err(e) => return Some(Err(e)) };
+    let body = match t {
+        Ty::Ign => "ign".to_string(),
+        Ty::Any => format!("[{}]", comps.iter().map(|c| format!("u{}", c)).collect::<Vec<_>>().join(",")),
+        Ty::Seq(e) => {
+            let mut items = vec![];
+            for c in &comps {
+                match e.as_ref() { Ty::Ign => items.push("ign".to_string()), e if is_leaf_ty(e) => match accept(e, &Prim::U32(*c)) { Ok(v) => items.push(v), Err(x) => return Some(Err(x)) }, _ => return Some(Err("err:type".to_string())) }
+            }
+            format!("[{}]", items.join(","))
+        }
+        _ => return Some(Err("err:type".to_string())),
+    };
+    Some(Ok(format!("[{},{}]", head, body)))
+}
+
+fn ref_node(c: &Cfg, t: &Ty, n: &BNode) -> Option<R> {
+    match t {
+        Ty::Ign => return Some(Ok("ign".to_string())),
+        Ty::Opt(inner) => return ref_node(c, inner, n).map(|r| r.map(|v| format!("some({})", v))),
+        Ty::Prop(_) => return None,
+        _ => {}
+    }
+    match n {
+        BNode::Leaf(l) => {
+            let p = match leaf_prim(c, l) { Ok(p) => p, Err(e) => return Some(Err(e)) };
+            Some(accept(t, &p))
+        }
+        BNode::Rgb(r, g, b, a) => match t {
+            // the element type of the outer pseudo-sequence is what sees "rgb" and then the component list
+            Ty::Seq(e) => ref_color(e, *r, *g, *b, *a),
+            // full capture: ["rgb",[r,g,b]]
+            Ty::Any => ref_color(&Ty::Any, *r, *g, *b, *a),
+            // a map / struct request on a colour is a misfit the paths answer differently: no claim
+            Ty::Map(_) | Ty::Struct(_) => None,
+            _ => Some(Err("err:type".to_string())),
+        },
+        BNode::Arr(vs) => match t {
+            Ty::Seq(e) => {
+                // an rgb block in ARRAY position: the tape parser only recognises the rgb lexeme as an object value
+                // (tape.rs `L::RGB if state == ObjectValue`), the lexer/reader anywhere: known finding rgb-in-array.
+                // The reference is the lexer's reading; the case is flagged so that only the tape path's
+                // disagreement is reported under that kind.
+                if vs.iter().any(|v| matches!(v, BNode::Rgb(..))) { RGB_IN_ARRAY.with(|f| f.set(true)); }
+                let mut items = vec![];
+                for v in vs { match ref_node(c, e, v)? { Ok(x) => items.push(x), Err(e) => return Some(Err(e)) } }
+                Some(Ok(format!("[{}]", items.join(","))))
+            }
+            Ty::Any => {
+                let mut items = vec![];
+                if vs.iter().any(|v| matches!(v, BNode::Rgb(..))) { RGB_IN_ARRAY.with(|f| f.set(true)); }
+                for v in vs { if matches!(v, BNode::Obj(_)) { return None; } match ref_node(c, &Ty::Any, v)? { Ok(x) => items.push(x), Err(e) => return Some(Err(e)) } }
+                Some(Ok(format!("[{}]", items.join(","))))
+            }
+            Ty::Map(_) | Ty::Struct(_) if vs.is_empty() => ref_fields(c, t, &[]),
+            Ty::Map(_) | Ty::Struct(_) => None,
+            _ => Some(Err("err:type".to_string())),
+        },
+        BNode::Obj(fs) => match t {
+            Ty::Map(_) | Ty::Struct(_) => ref_fields(c, t, fs),
+            Ty::Any | Ty::Seq(_) => None,
+            _ => Some(Err("err:type".to_string())),
+        },
+    }
+}
+
+fn ref_fields(c: &Cfg, t: &Ty, fs: &[BField]) -> Option<R> {
+    match t {
+        Ty::Map(vt) => {
+            let mut items = vec![];
+            for f in fs {
+                let k = match leaf_prim(c, &f.key).and_then(|p| accept(&Ty::Str, &p)) { Ok(k) => k, Err(e) => return Some(Err(e)) };
+                match ref_node(c, vt, &f.val)? { Ok(v) => items.push(format!("{}={}", k, v)), Err(e) => return Some(Err(e)) }
+            }
+            Some(Ok(format!("{{{}}}", items.join(","))))
+        }
+        Ty::Struct(decl) => {
+            let named: Vec<(String, Option<u16>, Ty)> = decl.iter().map(|(n, t)| (n.clone(), None, t.clone())).collect();
+            ref_struct(c, &named, false, fs)
+        }
+        _ => None,
+    }
+}
+
+fn ref_struct(c: &Cfg, decl: &[(String, Option<u16>, Ty)], by_token: bool, fs: &[BField]) -> Option<R> {
+    let mut slots: Vec<Option<String>> = vec![None; decl.len()];
+    for f in fs {
+        // which declared field does this key name?
+        let which: Option<usize> = if by_token && matches!(f.key, BLeaf::Id(_)) {
+            let BLeaf::Id(i) = f.key else { unreachable!() };
+            decl.iter().position(|(_, t, _)| *t == Some(i))
+        } else {
+            match leaf_prim(c, &f.key) {
+                Err(e) => return Some(Err(e)),
+                Ok(Prim::Str(s)) => decl.iter().position(|(n, _, _)| *n == s),
+                // serde_derive field identifiers also accept an unsigned integer as the field's index
+                Ok(Prim::U32(v)) if !by_token => if (v as usize) < decl.len() { Some(v as usize) } else { None },
+                Ok(Prim::U64(v)) if !by_token => if v < decl.len() as u64 { Some(v as usize) } else { None },
+                Ok(_) => return Some(Err("err:type".to_string())),
+            }
+        };
+        if let Some(i) = which {
+            if slots[i].is_some() { return Some(Err(format!("err:duplicate:{}", decl[i].0))); }
+            match ref_node(c, &decl[i].2, &f.val)? { Ok(v) => slots[i] = Some(v), Err(e) => return Some(Err(e)) }
+        }
+        // unknown field: skipped in its entirety, whatever it contains
+    }
+    let mut items = vec![];
+    for (i, (name, _, ty)) in decl.iter().enumerate() {
+        let v = match slots[i].take() { Some(v) => v, None => match ty { Ty::Opt(_) => "none".to_string(), _ => return Some(Err(format!("err:missing:{}", name))) } };
+        items.push(format!("{}={}", name, v));
+    }
+    Some(Ok(format!("{{{}}}", items.join(","))))
+}
+
+thread_local! { static RGB_IN_ARRAY: std::cell::Cell<bool> = std::cell::Cell::new(false); }
+
+/// reference value plus the known finding (if any) the case probes: only the TAPE path's disagreement may be
+/// reported under that kind
+pub fn value_and_kind(c: &Cfg, ty: &RootTy, d: &BDoc) -> (Option<String>, Option<&'static str>) {
+    RGB_IN_ARRAY.with(|f| f.set(false));
+    let v = value_of_bin(c, ty, d);
+    // a document that STARTS with a ghost object is refused by the tape parser by design (tape.rs `open_empty_err`),
+    // while both sequential deserializers skip it
+    let kind = if d.fields.first().map(|f| f.ghosts > 0).unwrap_or(false) { Some("leading-ghost-root") }
+        else if RGB_IN_ARRAY.with(|f| f.get()) { Some("rgb-in-array") } else { None };
+    (v, kind)
+}
+
+pub fn value_of_bin(c: &Cfg, ty: &RootTy, d: &BDoc) -> Option<String> {
+    let r = match ty {
+        RootTy::Plain(t @ (Ty::Map(_) | Ty::Struct(_))) => ref_fields(c, t, &d.fields)?,
+        RootTy::Plain(Ty::Prop(_)) => return None,
+        RootTy::Plain(_) => Err("err:other".to_string()), // the root only works with key value pairs
+        RootTy::Tok(fs) => {
+            let decl: Vec<(String, Option<u16>, Ty)> = fs.iter().map(|(n, i, t)| (n.clone(), Some(*i), t.clone())).collect();
+            ref_struct(c, &decl, true, &d.fields)?
+        }
+    };
+    Some(match r { Ok(v) => v, Err(e) => e })
+}
+
+// ---------------------------------------------------------------------------------------
+// target types that fit a binary document
+
+fn gen_leaf_ty(rng: &mut Rng, l: &BLeaf) -> Ty {
+    if rng.chance(1, 30) { return [Ty::Bool, Ty::I64, Ty::I32, Ty::U64, Ty::U32, Ty::F64, Ty::F32, Ty::Str, Ty::Any][rng.below(9)].clone(); }
+    match l {
+        BLeaf::I32(v) => if *v >= 0 { [Ty::I32, Ty::I64, Ty::F64, Ty::Any, Ty::U32, Ty::U64, Ty::F32][rng.below(7)].clone() } else { [Ty::I32, Ty::I64, Ty::F64, Ty::Any, Ty::I64, Ty::I32, Ty::F32, Ty::U64][{ let k = if rng.chance(1, 8) { 8 } else { 7 }; rng.below(k) }].clone() },
+        BLeaf::I64(_) => [Ty::I64, Ty::I64, Ty::F64, Ty::Any, Ty::F32, Ty::I32, Ty::U64][{ let k = if rng.chance(1, 6) { 7 } else { 5 }; rng.below(k) }].clone(),
+        BLeaf::U32(_) => [Ty::U32, Ty::U64, Ty::I64, Ty::Any, Ty::I32, Ty::F64][rng.below(6)].clone(),
+        BLeaf::U64(_) => [Ty::U64, Ty::U64, Ty::F64, Ty::Any, Ty::F32, Ty::I64, Ty::U32][{ let k = if rng.chance(1, 6) { 7 } else { 5 }; rng.below(k) }].clone(),
+        BLeaf::Bool(_) => [Ty::Bool, Ty::Bool, Ty::Any][rng.below(3)].clone(),
+        BLeaf::F32(_) => [Ty::F32, Ty::F64, Ty::Any][rng.below(3)].clone(),
+        BLeaf::F64(_) => [Ty::F64, Ty::F32, Ty::Any][rng.below(3)].clone(),
+        BLeaf::Quoted(b) | BLeaf::Unquoted(b) => {
+            if rng.chance(1, 8) && b.iter().all(|c| c.is_ascii_lowercase()) && !b.is_empty() {
+                let mut vs = vec![String::from_utf8(b.clone()).unwrap(), "other".to_string()];
+                if rng.chance(1, 3) { vs.remove(0); }
+                Ty::Enum(vs)
+            } else if rng.chance(1, 5) { Ty::Any } else { Ty::Str }
+        }
+        BLeaf::Id(_) => if rng.chance(1, 4) { Ty::Any } else { Ty::Str },
+    }
+}
+
+pub fn key_field_name(l: &BLeaf) -> Option<String> {
+    match l {
+        BLeaf::Quoted(b) | BLeaf::Unquoted(b) if !b.is_empty() && b.iter().all(|c| c.is_ascii_alphanumeric() || *c == b'_') && !b[0].is_ascii_digit() => Some(String::from_utf8(b.clone()).unwrap()),
+        BLeaf::Id(i) => docgen::id_name(*i).map(|s| s.to_string()),
+        _ => None,
+    }
+}
+
+fn gen_fields_ty(rng: &mut Rng, fs: &[BField]) -> Ty {
+    let names: Vec<Option<String>> = fs.iter().map(|f| key_field_name(&f.key)).collect();
+    let as_struct = !fs.is_empty() && rng.chance(4, 5);
+    if as_struct {
+        let mut out: Vec<(String, Ty)> = vec![];
+        let mut seen: Vec<String> = vec![];
+        for (f, n) in fs.iter().zip(names.iter()) {
+            let Some(n) = n else { continue };            // keys that are not identifiers stay unknown fields
+            if seen.contains(n) { continue; }                // typed after its first value; a repeated key is then a duplicate
+            seen.push(n.clone());
+            if rng.chance(1, 5) { continue; }                // partial struct: unknown field to skip
+            let t = gen_node_ty(rng, &f.val);
+            let t = if rng.chance(1, 6) { Ty::Opt(Box::new(t)) } else { t };
+            out.push((n.clone(), t));
+        }
+        if rng.chance(1, 4) { out.push(("absent_opt".to_string(), Ty::Opt(Box::new(Ty::I64)))); }
+        if rng.chance(1, 25) { out.push(("absent_req".to_string(), Ty::I64)); }
+        Ty::Struct(out)
+    } else {
+        let all_leaf = fs.iter().all(|f| matches!(f.val, BNode::Leaf(_)));
+        Ty::Map(Box::new(if all_leaf { if rng.chance(1, 2) { Ty::Any } else { Ty::Str } } else { Ty::Ign }))
+    }
+}
+
+pub fn gen_node_ty(rng: &mut Rng, n: &BNode) -> Ty {
+    if rng.chance(1, 25) { return Ty::Ign; }
+    match n {
+        BNode::Leaf(l) => gen_leaf_ty(rng, l),
+        BNode::Obj(fs) => gen_fields_ty(rng, fs),
+        BNode::Arr(vs) => {
+            if vs.is_empty() && rng.chance(1, 3) { return gen_fields_ty(rng, &[]); }
+            if vs.iter().all(|v| matches!(v, BNode::Leaf(_))) {
+                Ty::Seq(Box::new(match rng.below(4) { 0 => Ty::Any, 1 => Ty::Str, 2 => Ty::Ign, _ => if let Some(BNode::Leaf(l)) = vs.first() { gen_leaf_ty(rng, l) } else { Ty::I64 } }))
+            } else if vs.iter().all(|v| matches!(v, BNode::Obj(_))) {
+                if let (Some(BNode::Obj(fs)), true) = (vs.first(), rng.chance(1, 2)) { Ty::Seq(Box::new(gen_fields_ty(rng, fs))) } else { Ty::Seq(Box::new(Ty::Map(Box::new(Ty::Ign)))) }
+            } else if vs.iter().all(|v| matches!(v, BNode::Arr(_) | BNode::Leaf(_))) && rng.chance(1, 2) {
+                Ty::Seq(Box::new(Ty::Any))
+            } else {
+                Ty::Seq(Box::new(Ty::Ign))
+            }
+        }
+        BNode::Rgb(..) => match rng.below(9) { 0 => Ty::Ign, 1 => Ty::Seq(Box::new(Ty::Ign)), 2 => Ty::Seq(Box::new(Ty::Seq(Box::new(Ty::U32)))), 3 | 4 => Ty::Any, 5 => Ty::Str, 6 => Ty::I64, _ => Ty::Seq(Box::new(Ty::Any)) },
+    }
+}
+
+pub fn gen_root_ty(rng: &mut Rng, d: &BDoc) -> RootTy {
+    if rng.chance(1, 6) {
+        // token-attribute struct over the pool keys present in the document
+        let mut fs: Vec<(String, u16, Ty)> = vec![];
+        for f in &d.fields {
+            let Some(n) = key_field_name(&f.key) else { continue };
+            let Some(id) = docgen::key_id(n.as_bytes()) else { continue };
+            if fs.iter().any(|(m, _, _)| *m == n) || rng.chance(1, 5) { continue; }
+            let t = gen_node_ty(rng, &f.val);
+            fs.push((n, id, if rng.chance(1, 6) { Ty::Opt(Box::new(t)) } else { t }));
+        }
+        if rng.chance(1, 4) { fs.push(("absent_opt".to_string(), 0x3ff0, Ty::Opt(Box::new(Ty::I64)))); }
+        return RootTy::Tok(fs);
+    }
+    RootTy::Plain(gen_fields_ty(rng, &d.fields))
+}
+
+/// a type drawn without looking at the document (model fidelity on ill-fitting requests; no cross-path claim)
+fn gen_wild_ty(rng: &mut Rng, depth: usize) -> Ty {
+    let r = rng.below(if depth >= 3 { 10 } else { 16 });
+    match r {
+        0 => Ty::Bool, 1 => Ty::I64, 2 => Ty::U64, 3 => Ty::I32, 4 => Ty::U32, 5 => Ty::F64, 6 => Ty::F32, 7 => Ty::Str, 8 => Ty::Any, 9 => Ty::Ign,
+        10 => Ty::Opt(Box::new(gen_wild_ty(rng, depth + 1))),
+        11 => Ty::Seq(Box::new(gen_wild_ty(rng, depth + 1))),
+        12 => Ty::Map(Box::new(gen_wild_ty(rng, depth + 1))),
+        13 => Ty::Enum(vec!["a".to_string(), "name".to_string()]),
+        _ => {
+            let n = rng.below(4);
+            let mut fs: Vec<(String, Ty)> = vec![];
+            for _ in 0..n { let k = rng.pick(&docgen::KEY_POOL).to_string(); if fs.iter().all(|(m, _)| *m != k) { fs.push((k, gen_wild_ty(rng, depth + 1))); } }
+            Ty::Struct(fs)
+        }
+    }
+}
+
+// ---------------------------------------------------------------------------------------
+// fixed real derived structs (cross-check of the Ty interpreter against real `Deserialize` impls)
+
+mod real {
+    use jomini::JominiDeserialize;
+    use serde::Deserialize;
+
+    #[derive(Deserialize, Debug)]
+    pub struct Inner { pub x: i32, pub y: Option<u32> }
+    #[derive(Deserialize, Debug)]
+    pub struct PlainS { pub a: i64, pub name: String, pub flags: Vec<String>, pub unit: Option<Inner>, pub core: Option<bool> }
+    #[derive(JominiDeserialize, Debug)]
+    pub struct TokS {
+        #[jomini(token = 0x2000)] pub a: i64,
+        #[jomini(token = 0x200e)] pub name: String,
+        #[jomini(token = 0x2023)] pub flags: Option<Vec<String>>,
+    }
+    // (serde's derive: tyseed's field identifier mirrors serde_derive, which reads an unsigned integer key as a
+    // field index; jomini_derive's identifier visitor has no visit_u64 and answers `invalid type` instead)
+    #[derive(Deserialize, Debug)]
+    pub struct JomS { pub id: u32, pub x: f32, pub y: Option<f64>, pub list: Vec<i32> }
+}
+
+fn hexs(s: &str) -> String { hex(s.as_bytes()) }
+fn real_plain(v: &real::PlainS) -> String {
+    format!("{{a=i{},name=s{},flags=[{}],unit={},core={}}}", v.a, hexs(&v.name), v.flags.iter().map(|s| format!("s{}", hexs(s))).collect::<Vec<_>>().join(","),
+        match &v.unit { Some(i) => format!("some({{x=i{},y={}}})", i.x, match i.y { Some(y) => format!("some(u{})", y), None => "none".into() }), None => "none".into() },
+        match v.core { Some(b) => format!("some(b{})", b as u8), None => "none".into() })
+}
+fn real_tok(v: &real::TokS) -> String {
+    format!("{{a=i{},name=s{},flags={}}}", v.a, hexs(&v.name), match &v.flags { Some(f) => format!("some([{}])", f.iter().map(|s| format!("s{}", hexs(s))).collect::<Vec<_>>().join(",")), None => "none".into() })
+}
+fn real_jom(v: &real::JomS) -> String {
+    format!("{{id=u{},x=g{},y={},list=[{}]}}", v.id, v.x.to_bits(), match v.y { Some(y) => format!("some(f{})", y.to_bits()), None => "none".into() }, v.list.iter().map(|i| format!("i{}", i)).collect::<Vec<_>>().join(","))
+}
+const TY_PLAIN: &str = "st(a:i64;name:str;flags:seq(str);unit:opt(st(x:i32;y:opt(u32)));core:opt(bool))";
+const TY_TOK: &str = "tst(a#8192:i64;name#8206:str;flags#8227:opt(seq(str)))";
+const TY_JOM: &str = "st(id:u32;x:f32;y:opt(f64);list:seq(i32))";
+
+fn real_all_paths<T: for<'de> serde::Deserialize<'de>>(c: &Cfg, data: &[u8], show: impl Fn(&T) -> String) -> [String; 3] {
+    let res = make_resolver(c);
+    let fin = |r: Result<T, jomini::Error>| match r { Ok(v) => show(&v), Err(e) => err_class(&e.to_string()) };
+    let t = match BinaryTape::from_slice(data) { Ok(tape) => fin(builder(c).deserialize_tape(&tape, &res)), Err(_) => "err:parse".to_string() };
+    let s = fin(builder(c).deserialize_slice(data, &res));
+    let r = fin(builder(c).deserialize_reader(data, &res));
+    [t, s, r]
+}
+
+// ---------------------------------------------------------------------------------------
+// exec
+
+fn tok_count(obs: &mut Obs, raw: &[String]) {
+    for t in raw { let k = t.split(':').next().unwrap_or(""); obs.count(&format!("tok:{}", k)); }
+}
 
 pub fn exec(w: &[&str], obs: &mut Obs) -> Option<String> {
-    None
+    let case = || w.join(" ");
+    match w {
+        ["bde_tape", cfg, ty, tape, h] => {
+            let (c, ty, data) = (parse_cfg(cfg)?, parse_root(ty)?, unhex(h)?);
+            match BinaryTape::from_slice(&data) {
+                Ok(t) => if show::bin_tape(t.tokens()) != *tape { return Some("stale-case".to_string()); },
+                Err(_) => return Some("stale-case".to_string()),
+            }
+            let r = run_tape(&c, &ty, &data);
+            obs.count(&format!("tape:{}", res_kind(&r)));
+            Some(r)
+        }
+        ["bde_slice", cfg, ty, raw, h] => {
+            let (c, ty, data) = (parse_cfg(cfg)?, parse_root(ty)?, unhex(h)?);
+            let (toks, _) = raw_tokens(&data);
+            if join(&toks) != *raw { return Some("stale-case".to_string()); }
+            tok_count(obs, &toks);
+            let r = run_slice(&c, &ty, &data);
+            obs.count(&format!("slice:{}", res_kind(&r)));
+            Some(r)
+        }
+        ["bde_stream", cfg, ty, raw, h, cap, sc] => {
+            let (c, ty, data) = (parse_cfg(cfg)?, parse_root(ty)?, unhex(h)?);
+            let (toks, _) = raw_tokens(&data);
+            if join(&toks) != *raw { return Some("stale-case".to_string()); }
+            let r = run_stream(&c, &ty, &data, cap.parse().ok()?, sched::parse(sc)?);
+            obs.count(&format!("stream:{}", res_kind(&r)));
+            Some(r)
+        }
+        ["bde_spec", cfg, ty, bd] => {
+            let (c, ty, d) = (parse_cfg(cfg)?, parse_root(ty)?, parse_bdoc(bd)?);
+            let (expect, kind) = value_and_kind(&c, &ty, &d);
+            let expect = expect?;
+            let data = render_bdoc(&d);
+            // L3: the three real paths against the reference and each other, both resolver kinds, several buffers
+            let (raw, big) = raw_tokens(&data);
+            let need = max_token_len(&raw, big);
+            let mut check = |name: &str, got: String, obs: &mut Obs| {
+                if got != expect {
+                    // probes of the known findings: the tape path (and only it) may disagree, under the finding's kind
+                    match kind {
+                        Some(k) if name == "tape" => { obs.violation(k, &case(), &format!("{} gives {} reference {}", name, got, expect)); }
+                        _ => { obs.violation(&format!("c04-{}-ne-reference", name), &case(), &format!("{} gives {} reference {}", name, got, expect)); }
+                    }
+                }
+            };
+            for lines in [false, true] {
+                let c2 = Cfg { lines, ..c.clone() };
+                check("tape", run_tape(&c2, &ty, &data), obs);
+                check("ondemand", run_slice(&c2, &ty, &data), obs);
+                check("stream", run_stream(&c2, &ty, &data, 32 * 1024, vec![]), obs);
+            }
+            check("stream-tight", run_stream(&c, &ty, &data, need, vec![sched::Step::Repeat(1)]), obs);
+            check("stream-mid", run_stream(&c, &ty, &data, need + 5, vec![sched::Step::Repeat(3)]), obs);
+            obs.count(&format!("spec:{}", res_kind(&expect)));
+            features(&d.fields, 0, obs);
+            match &ty { RootTy::Tok(_) => obs.count("rootty:token-struct"), RootTy::Plain(Ty::Map(_)) => obs.count("rootty:map"), RootTy::Plain(Ty::Struct(_)) => obs.count("rootty:struct"), _ => obs.count("rootty:other") }
+            obs.count(match c.strat { FailedResolveStrategy::Error => "strategy:error", FailedResolveStrategy::Stringify => "strategy:stringify", FailedResolveStrategy::Ignore => "strategy:ignore" });
+            Some(expect)
+        }
+        ["bde_toks", bd] => { let d = parse_bdoc(bd)?; Some(join(&raw_tokens(&render_bdoc(&d)).0)) }
+        ["bde_tapeof", bd] => {
+            let d = parse_bdoc(bd)?;
+            Some(match BinaryTape::from_slice(&render_bdoc(&d)) { Ok(t) => show::bin_tape(t.tokens()), Err(_) => "err:parse".to_string() })
+        }
+        ["x-c04-real", cfg, h] => {
+            let (c, data) = (parse_cfg(cfg)?, unhex(h)?);
+            let mut out = vec![];
+            let mut cmp = |name: &str, ty: &str, real: [String; 3], obs: &mut Obs| {
+                let ty = parse_root(ty).unwrap();
+                let seed = [run_tape(&c, &ty, &data), run_slice(&c, &ty, &data), run_stream(&c, &ty, &data, 32 * 1024, vec![])];
+                for i in 0..3 {
+                    if real[i] != seed[i] { obs.violation("c04-tyseed-ne-real-struct", &case(), &format!("{} path {}: real {} tyseed {}", name, i, real[i], seed[i])); }
+                }
+                obs.count(&format!("real:{}:{}", name, res_kind(&real[1])));
+                real[1].clone()
+            };
+            out.push(cmp("plain", TY_PLAIN, real_all_paths::<real::PlainS>(&c, &data, real_plain), obs));
+            out.push(cmp("token", TY_TOK, real_all_paths::<real::TokS>(&c, &data, real_tok), obs));
+            out.push(cmp("jomini", TY_JOM, real_all_paths::<real::JomS>(&c, &data, real_jom), obs));
+            Some(out.join("|"))
+        }
+        _ => None,
+    }
+}
+
+fn res_kind(r: &str) -> &str {
+    if r.starts_with("err:missing") { "err:missing" } else if r.starts_with("err:duplicate") { "err:duplicate" } else if r.starts_with("err") { r } else { "ok" }
+}
+
+// ---------------------------------------------------------------------------------------
+// gen
+
+fn resolver_variants(rng: &mut Rng) -> Vec<(u16, String)> {
+    let all: Vec<(u16, String)> = docgen::KEY_POOL.iter().map(|k| (docgen::key_id(k.as_bytes()).unwrap(), k.to_string())).collect();
+    match rng.below(4) {
+        0 => vec![],
+        1 => all.into_iter().filter(|_| rng.chance(1, 2)).collect(),
+        _ => all,
+    }
+}
+
+fn gen_cfg(rng: &mut Rng) -> Cfg {
+    let strat = *rng.pick(&[FailedResolveStrategy::Error, FailedResolveStrategy::Stringify, FailedResolveStrategy::Ignore]);
+    Cfg { strat, lines: rng.chance(1, 2), entries: resolver_variants(rng) }
+}
+
+pub fn gen_bdoc(g: &mut Gen) -> BDoc {
+    let dcfg = DocCfg::shared();
+    let mut doc = docgen::gen_doc(&mut g.rng, &dcfg);
+    // ghost objects in key position belong to well-formed binary documents
+    if g.rng.chance(1, 4) { for f in doc.fields.iter_mut() { if g.rng.chance(1, 5) { f.ghosts = 1 + g.rng.below(2); } } }
+    let bcfg = BinCfg { key_id_pct: *g.rng.pick(&[0, 50, 70, 100]), unquoted_pct: *g.rng.pick(&[0, 20, 50, 100]), ints_as: 0 };
+    let mut r2 = g.rng.clone();
+    let bytes = docgen::render_binary(&mut g.rng, &bcfg, &doc);
+    let mut bd = to_bdoc(&mut r2, &bcfg, &doc);
+    assert_eq!(render_bdoc(&bd), bytes, "to_bdoc/render_bdoc must agree with docgen::render_binary");
+    // extras the shared generator has no notion of: token ids and F64 / I64 in value position
+    if g.rng.chance(1, 3) { extras(&mut g.rng, &mut bd.fields); }
+    // integer / date keys make every struct or map request fail on the key (serde field identifiers and
+    // `String` know no signed integer): keep a few, turn the rest into strings or unsigned "index" keys
+    rekey(&mut g.rng, &mut bd.fields);
+    if bd.fields.is_empty() && g.rng.chance(4, 5) { return gen_bdoc(g); }
+    bd
+}
+
+fn rekey(rng: &mut Rng, fs: &mut Vec<BField>) {
+    for f in fs.iter_mut() {
+        if let BLeaf::I32(v) = f.key {
+            match rng.below(10) {
+                0 => {}
+                1 | 2 => f.key = BLeaf::U32(rng.below(6) as u32),
+                3 => f.key = BLeaf::U64(rng.below(4) as u64),
+                _ => f.key = BLeaf::Unquoted(v.to_string().into_bytes()),
+            }
+        }
+        match &mut f.val {
+            BNode::Obj(inner) => rekey(rng, inner),
+            BNode::Arr(vs) => { for v in vs.iter_mut() { if let BNode::Obj(inner) = v { rekey(rng, inner); } } }
+            _ => {}
+        }
+    }
+}
+
+fn features(fs: &[BField], depth: usize, obs: &mut Obs) {
+    obs.count(&format!("doc:depth{}", depth.min(5)));
+    for f in fs {
+        if f.ghosts > 0 { obs.count("doc:ghost"); }
+        match &f.key { BLeaf::Id(_) => obs.count("doc:key-id"), BLeaf::Quoted(_) | BLeaf::Unquoted(_) => obs.count("doc:key-string"), _ => obs.count("doc:key-number") }
+        match &f.val {
+            BNode::Leaf(BLeaf::Id(_)) => obs.count("doc:value-id"),
+            BNode::Leaf(_) => obs.count("doc:value-leaf"),
+            BNode::Rgb(_, _, _, a) => obs.count(if a.is_some() { "doc:rgba" } else { "doc:rgb" }),
+            BNode::Obj(inner) => { obs.count("doc:object"); features(inner, depth + 1, obs); }
+            BNode::Arr(vs) => { obs.count(if vs.is_empty() { "doc:empty-container" } else { "doc:array" }); for v in vs { if let BNode::Obj(inner) = v { features(inner, depth + 1, obs); } } }
+        }
+    }
+}
+
+fn extras(rng: &mut Rng, fs: &mut Vec<BField>) {
+    for f in fs.iter_mut() {
+        match &mut f.val {
+            BNode::Leaf(l) => {
+                if rng.chance(1, 4) {
+                    *l = match rng.below(4) {
+                        0 => BLeaf::Id(0x2000 + 7 * rng.below(18) as u16),
+                        1 => BLeaf::F64(((rng.next() as i64) >> rng.below(50)).to_le_bytes()),
+                        2 => BLeaf::I64(rng.next() as i64 >> rng.below(60)),
+                        _ => BLeaf::Id(rng.below(0x10000) as u16),
+                    };
+                    if let BLeaf::Id(i) = l { if !LexemeId(*i).is_id() { *l = BLeaf::Id(0x2000); } }
+                }
+            }
+            BNode::Obj(inner) => extras(rng, inner),
+            BNode::Arr(vs) => { for v in vs.iter_mut() { if let BNode::Obj(inner) = v { extras(rng, inner); } } }
+            _ => {}
+        }
+    }
+}
+
+fn emit_paths(g: &mut Gen, c: &Cfg, ty: &RootTy, data: &[u8], slice_ok: bool) {
+    let (raw, big) = raw_tokens(data);
+    let raws = join(&raw);
+    let (cs, ts, hx) = (show_cfg(c), show_root(ty), hex(data));
+    if let Ok(t) = BinaryTape::from_slice(data) {
+        g.emit(format!("bde_tape {} {} {} {}", cs, ts, show::bin_tape(t.tokens()), hx));
+    } else { g.count("tape-parse-error"); }
+    if slice_ok { g.emit(format!("bde_slice {} {} {} {}", cs, ts, raws, hx)); } else { g.count("slice-skipped:open-before-payload-lexeme"); }
+    let need = max_token_len(&raw, big).max(if raw.last().map(|t| t == "Trunc").unwrap_or(false) { 48 } else { 0 });
+    let cap = match g.rng.below(4) { 0 => need, 1 => need + g.rng.below(8), 2 => need + g.rng.below(64), _ => 32 * 1024 };
+    let sc = sched::random(&mut g.rng, data.len());
+    g.emit(format!("bde_stream {} {} {} {} {} {}", cs, ts, raws, hx, cap, sched::show(&sc)));
+}
+
+/// the on-demand path discards ONE lexeme id after an `Open` in key position; on raw lexemes that is exact
+/// only when that lexeme carries no payload.  Sufficient syntactic guard used for ill-formed / ill-typed cases.
+fn slice_token_level(raw: &[String]) -> bool {
+    let payload_free = |t: &str| t == "Open" || t == "Close" || t == "Equal" || t.starts_with("Id:");
+    raw.windows(2).all(|p| p[0] != "Open" || payload_free(&p[1]))
+}
+
+fn mutate_tokens(rng: &mut Rng, d: &BDoc) -> Vec<u8> {
+    // token level mutations of a rendering: delete / duplicate / insert structural lexemes, truncate anywhere
+    let data = render_bdoc(d);
+    let (raw, _) = raw_tokens(&data);
+    // byte offsets of lexeme starts
+    let mut offs = vec![];
+    { let mut lx = Lexer::new(&data); while !lx.remainder().is_empty() { offs.push(lx.position()); let Ok(id) = lx.read_id() else { break }; if lx.skip_value(if id == LexemeId::OPEN || id == LexemeId::RGB { LexemeId(0x2000) } else { id }).is_err() { break; } } }
+    let _ = raw;
+    offs.push(data.len());
+    let mut out = data.clone();
+    let n = 1 + rng.below(2);
+    for _ in 0..n {
+        if offs.len() < 2 { break; }
+        let k = rng.below(offs.len() - 1);
+        let (a, b) = (offs[k].min(out.len()), offs[k + 1].min(out.len()));
+        match rng.below(6) {
+            0 => { out.drain(a..b); }
+            1 => { let seg: Vec<u8> = out[a..b].to_vec(); for (i, x) in seg.into_iter().enumerate() { out.insert(a + i, x); } }
+            2 => { let t = *rng.pick(&[docgen::L_OPEN, docgen::L_CLOSE, docgen::L_EQUAL]); let bs = t.to_le_bytes(); out.insert(a, bs[1]); out.insert(a, bs[0]); }
+            3 => { let p = rng.below(out.len() + 1); out.truncate(p); }
+            4 => { out.truncate(a); }
+            _ => { let bs = (0x2000u16 + 7 * rng.below(16) as u16).to_le_bytes(); out.insert(a, bs[1]); out.insert(a, bs[0]); }
+        }
+    }
+    out
+}
+
+pub fn gen(g: &mut Gen) {
+    // fixed corners first
+    let c_all = Cfg { strat: FailedResolveStrategy::Error, lines: false, entries: resolver_variants(&mut Rng(3)).into_iter().chain(docgen::KEY_POOL.iter().map(|k| (docgen::key_id(k.as_bytes()).unwrap(), k.to_string()))).collect() };
+    for (ty, bd) in [
+        ("st(a:i64)", "Id:8192=I32:5"),
+        ("st(a:i64;b:opt(str))", "Id:8192=I64:-9;~~Q:62=U:6869"),
+        ("map(any)", "Id:8192=I32:5;U:62=F32:dc050000;Q:6e616d65=Bool:1;Id:8199=F64:0080000000000000"),
+        ("st(color:seq(any))", "Id:8276=Rgb:1.2.3"),
+        ("st(color:seq(any))", "Id:8276=Rgb:1.2.3.4"),
+        ("st(list:seq(i32))", "Id:8290=A(I32:1;I32:2;I32:3)"),
+        ("st(unit:st(x:u32))", "Id:8248=O(Id:8255=U32:7;Id:8262=A(A();A(I32:1)))"),
+        ("st(a:i64)", "Id:8192=I32:5;Id:8192=I32:6"),
+        ("st(a:i64;zz:i64)", "Id:8192=I32:5"),
+        ("tst(a#8192:i64;name#8206:str)", "Id:8192=I32:5;Id:8206=Q:656e67"),
+        ("st(a:f32;b:f64)", "Id:8192=I32:16777217;Id:8199=U64:18446744073709551615"),
+        // probes of the known findings
+        ("st(flags:seq(ign))", "Id:8227=A(I32:0;Rgb:1.2.3;F32:dc050000)"),
+        ("st(flags:seq(any);a:i64)", "Id:8227=A(Rgb:9.8.7.6);Id:8192=I32:1"),
+        ("st(a:i64)", "~Id:8192=I32:5"),
+    ] {
+        for strat in ["E", "S", "I"] {
+            for e in [show_cfg(&c_all).splitn(3, '/').nth(2).unwrap().to_string(), "-".to_string()] {
+                g.emit(format!("bde_spec {}/H/{} {} {}", strat, e, ty, bd));
+            }
+        }
+        g.emit(format!("bde_toks {}", bd));
+        g.emit(format!("bde_tapeof {}", bd));
+    }
+    g.count("fixed-corners");
+
+    // 1. well-formed documents x resolver x strategy x fitting types: all three paths + reference
+    let n = g.budget(2500, 60_000);
+    for _ in 0..n {
+        let bd = gen_bdoc(g);
+        let data = render_bdoc(&bd);
+        let bds = show_bdoc(&bd);
+        if g.rng.chance(1, 6) { g.emit(format!("bde_toks {}", bds)); g.emit(format!("bde_tapeof {}", bds)); }
+        let k = 1 + g.rng.below(2);
+        for _ in 0..k {
+            let c = gen_cfg(&mut g.rng);
+            let ty = gen_root_ty(&mut g.rng, &bd);
+            let (val, kind) = value_and_kind(&c, &ty, &bd);
+            let fits = val.is_some();
+            if let (true, Some(k)) = (fits, kind) {
+                // known findings are probed with a small number of cases per run (reported under their own kind)
+                let key = format!("probe:{}", k);
+                if g.hist.get(&key).copied().unwrap_or(0) < 15 { g.emit(format!("bde_spec {} {} {}", show_cfg(&c), show_root(&ty), bds)); g.count(&key); }
+            } else if fits {
+                g.emit(format!("bde_spec {} {} {}", show_cfg(&c), show_root(&ty), bds));
+                g.count("wellformed:fitting-type");
+            } else { g.count("wellformed:no-claim-type"); }
+            let (raw, _) = raw_tokens(&data);
+            emit_paths(g, &c, &ty, &data, fits || slice_token_level(&raw));
+        }
+        if g.rng.chance(1, 10) { let c = gen_cfg(&mut g.rng); g.emit(format!("x-c04-real {} {}", show_cfg(&c), hex(&data))); }
+    }
+    // documents shaped for the fixed real structs
+    let m = g.budget(400, 8000);
+    for _ in 0..m {
+        let bd = gen_real_doc(&mut g.rng);
+        let c = gen_cfg(&mut g.rng);
+        g.emit(format!("x-c04-real {} {}", show_cfg(&c), hex(&render_bdoc(&bd))));
+    }
+    g.count("real-struct-docs");
+
+    // 2. well-formed documents x types drawn blind (model fidelity; no cross-path claim)
+    let n2 = g.budget(1500, 30_000);
+    for _ in 0..n2 {
+        let bd = gen_bdoc(g);
+        let data = render_bdoc(&bd);
+        let c = gen_cfg(&mut g.rng);
+        let ty = match gen_wild_ty(&mut g.rng, 0) { t @ (Ty::Map(_) | Ty::Struct(_)) => t, t => if g.rng.chance(1, 10) { t } else { Ty::Map(Box::new(t)) } };
+        let (raw, _) = raw_tokens(&data);
+        emit_paths(g, &c, &RootTy::Plain(ty), &data, slice_token_level(&raw));
+        g.count("wellformed:blind-type");
+    }
+
+    // 3. ill-formed token streams (mutations, truncation) x fitting and blind types
+    let n3 = g.budget(2000, 40_000);
+    for _ in 0..n3 {
+        let bd = gen_bdoc(g);
+        let data = mutate_tokens(&mut g.rng, &bd);
+        let c = gen_cfg(&mut g.rng);
+        let ty = if g.rng.chance(2, 3) { gen_root_ty(&mut g.rng, &bd) } else { RootTy::Plain(Ty::Map(Box::new(gen_wild_ty(&mut g.rng, 1)))) };
+        let (raw, _) = raw_tokens(&data);
+        emit_paths(g, &c, &ty, &data, slice_token_level(&raw));
+        g.count("illformed:mutated");
+    }
+}
+
+fn gen_real_doc(rng: &mut Rng) -> BDoc {
+    fn key(rng: &mut Rng, n: &str) -> BLeaf { if rng.chance(2, 3) { BLeaf::Id(docgen::key_id(n.as_bytes()).unwrap()) } else { BLeaf::Unquoted(n.as_bytes().to_vec()) } }
+    fn s(rng: &mut Rng) -> BNode { let n = rng.below(6); BNode::Leaf(BLeaf::Quoted((0..n).map(|_| b'a' + rng.below(26) as u8).collect())) }
+    let mut vals: Vec<(&str, BNode)> = vec![];
+    let a = if rng.chance(1, 2) { BLeaf::I32(rng.next() as i32) } else { let sh = rng.below(40); BLeaf::I64(rng.next() as i64 >> sh) };
+    vals.push(("a", BNode::Leaf(a)));
+    let nm = s(rng);
+    vals.push(("name", nm));
+    let nfl = rng.below(4);
+    let fl: Vec<BNode> = (0..nfl).map(|_| s(rng)).collect();
+    vals.push(("flags", BNode::Arr(fl)));
+    if rng.chance(1, 2) {
+        let kx = key(rng, "x");
+        let mut inner = vec![BField { ghosts: 0, key: kx, val: BNode::Leaf(BLeaf::I32(rng.next() as i32 >> 8)) }];
+        if rng.chance(1, 2) { let ky = key(rng, "y"); inner.push(BField { ghosts: 0, key: ky, val: BNode::Leaf(BLeaf::U32(rng.next() as u32)) }); }
+        if rng.chance(1, 3) { let kz = key(rng, "zz_long_key_name"); inner.push(BField { ghosts: 0, key: kz, val: BNode::Arr(vec![BNode::Arr(vec![]), BNode::Leaf(BLeaf::Bool(true))]) }); }
+        vals.push(("unit", BNode::Obj(inner)));
+    }
+    if rng.chance(1, 2) { let b = rng.chance(1, 2); vals.push(("core", BNode::Leaf(BLeaf::Bool(b)))); }
+    let sh = rng.below(32);
+    vals.push(("id", BNode::Leaf(BLeaf::U32(rng.next() as u32 >> sh))));
+    vals.push(("x", BNode::Leaf(BLeaf::F32(((rng.next() % 2_000_001) as i32 - 1_000_000).to_le_bytes()))));
+    if rng.chance(1, 2) { let sh = rng.below(50); vals.push(("y", BNode::Leaf(BLeaf::F64((rng.next() as i64 >> sh).to_le_bytes())))); }
+    let nl = rng.below(5);
+    let li: Vec<BNode> = (0..nl).map(|_| { let sh = rng.below(31); BNode::Leaf(BLeaf::I32(rng.next() as i32 >> sh)) }).collect();
+    vals.push(("list", BNode::Arr(li)));
+    if rng.chance(1, 8) { vals.push(("a", BNode::Leaf(BLeaf::I32(1)))); }
+    if rng.chance(1, 4) { vals.push(("color", BNode::Rgb(1, 2, 3, None))); }
+    let mut fs = vec![];
+    for (n, v) in vals {
+        if rng.chance(1, 10) { continue; }
+        let ghosts = if rng.chance(1, 12) { 1 } else { 0 };
+        let k = key(rng, n);
+        fs.push(BField { ghosts, key: k, val: v });
+    }
+    for i in (1..fs.len()).rev() { let j = rng.below(i + 1); fs.swap(i, j); }
+    BDoc { fields: fs }
 }
 
 pub fn tables() -> String {
-    String::new()
+    // Windows-1252 code page as the compiled decoder has it (bytes 0x80..=0xFF -> code points)
+    let mut cps = vec![];
+    for b in 0x80u16..=0xff {
+        let s = Windows1252Encoding::decode(&[b as u8]).into_owned();
+        cps.push(s.chars().next().map(|c| c as u32).unwrap_or(0xfffd).to_string());
+    }
+    format!("/-- Windows-1252 code points of the bytes 0x80..0xFF, measured through `Windows1252Encoding::decode` -/\ndef binDeWin1252High : List Nat := [{}]\n\n", cps.join(", "))
 }
